@@ -35,6 +35,7 @@ def main(tier):
     chk.run("R-NAMEDKINDS", P.namedkinds, r, s, cx.sites, floor=10)
     chk.run("R-RENDERINT", B.renderint, r, floor=100)
     chk.run("R-ENUMCASE", B.enumcase, r, floor=2)
-    chk.run("R-INTRANGE", RG.intrange, r, floor=190)
+    chk.run("R-NSPARSE", B.nsparse, r, floor=1)
+    chk.run("R-INTRANGE", RG.intrange, r, parts=('backend',), floor=4)
     chk.run("R-BOUNDARY", RG.boundary, r, floor=130)
     return chk.finish()
